@@ -30,7 +30,7 @@ Inductive case :=
         (stopped_order : list Z)    (* kinds in the order their "Stopped ..." log lines appeared *)
 (* scripted schedule: the goroutines of the HTTP / HTTPS providers listed in [held] are held between
    startWg.Done() and ListenAndServe[TLS] until Stop (ample context) has had time to return *)
-| CHeld (kinds held : list Z) (start_ok stop_while_held stop_ok stop_err wg_ok : bool) (down rebind : list bool)
+| CHeld (kinds held : list Z) (start_while_held start_ok stop_while_held stop_ok stop_err wg_ok : bool) (down rebind : list bool)
         (stopped_order : list Z).
 
 Definition kind_of (k : Z) : kind := if k =? 2 then KGrpc else KHttp.
@@ -42,8 +42,8 @@ Fixpoint repeat_step (l : label) (k : nat) (s : st) : st :=
 Fixpoint for_provs (f : nat -> Z -> st -> st) (i : nat) (l : list Z) (s : st) : st :=
   match l with [] => s | x :: t => for_provs f (S i) t (f i x s) end.
 
-Definition is_stopped (s : st) : bool := match s_caller s with CStopped => true | _ => false end.
-Definition is_running (s : st) : bool := match s_caller s with CRunning => true | _ => false end.
+Definition is_stopped (s : st) : bool := match s_stop s with CStopped => true | _ => false end.
+Definition is_running (s : st) : bool := match s_start s with CRunning => true | _ => false end.
 
 (* while Start runs and right after it: everything except entering the serve loops (immediate Stop) *)
 Definition labels_no_serve (n : nat) : list label :=
@@ -100,16 +100,18 @@ Definition verdict (c : case) : nat :=
            bool_eqb err_pred stop_err &&
            zlist_eqb stopped_order kinds
         then 0%nat else 2%nat
-  | CHeld _ _ _ _ _ _ _ _ _ _ => 0%nat   (* evaluated by verdict_held through verdict' *)
+  | CHeld _ _ _ _ _ _ _ _ _ _ _ => 0%nat   (* evaluated by verdict_held through verdict' *)
   end.
 
 Definition serve_of_held (kinds held : list Z) (l : label) : bool :=
   match l with
-  | LServe i => match nth_error kinds i with Some k => zmem k held | None => false end
+  | LServe i => match nth_error kinds i with Some k => negb (k =? 2) && zmem k held | None => false end
+  (* a held gRPC goroutine has not even listened: Start itself is still in progress *)
+  | LListen i => match nth_error kinds i with Some k => (k =? 2) && zmem k held | None => false end
   | _ => false
   end.
 
-Definition verdict_held kinds held (start_ok stop_while_held stop_ok stop_err wg_ok : bool) (down rebind : list bool)
+Definition verdict_held kinds held (start_while_held start_ok stop_while_held stop_ok stop_err wg_ok : bool) (down rebind : list bool)
            (stopped_order : list Z) : nat :=
   let n := length kinds in
   let monitor := start_ok && negb stop_while_held && stop_ok && wg_ok && all_true down && all_true rebind &&
@@ -121,13 +123,13 @@ Definition verdict_held kinds held (start_ok stop_while_held stop_ok stop_err wg
     let s1 := settle free fuel (lstep LCallStart (init (map kind_of kinds) 0)) in      (* Start with the goroutines held *)
     let s2 := settle free fuel (lstep LCallStop s1) in                                  (* Stop while they are held *)
     let s3 := settle all fuel s2 in                                                     (* released *)
-    if is_running s1 && negb (is_stopped s2) && is_stopped s3 && (s_stopwg s3 =? 0) &&
+    if bool_eqb (is_running s1) start_while_held && negb (is_stopped s2) && is_stopped s3 && is_running s3 && (s_stopwg s3 =? 0) &&
        forallb (fun p => negb (p_bound p)) (s_provs s3) && negb stop_err && zlist_eqb stopped_order kinds
     then 0%nat else 2%nat.
 
 Definition verdict' (c : case) : nat :=
   match c with
-  | CHeld kinds held a b c0 d e f g h => verdict_held kinds held a b c0 d e f g h
+  | CHeld kinds held a0 a b c0 d e f g h => verdict_held kinds held a0 a b c0 d e f g h
   | _ => verdict c
   end.
 
@@ -153,9 +155,14 @@ Example corr18_selftest :
   (* gRPC handler ignoring cancellation, context over, Stop hung until release: the property's monitor rejects *)
   /\ verdict (CLife [2] [1] 1 false true true [true] true false false [0] true [true] [true] [2]) = 1%nat
   (* held goroutines: Stop waits for them *)
-  /\ verdict' (CHeld [0; 1; 2] [0; 1] true false true false true [true; true; true] [true; true; true] [0; 1; 2]) = 0%nat
+  /\ verdict' (CHeld [0; 1; 2] [0; 1] true true false true false true [true; true; true] [true; true; true] [0; 1; 2]) = 0%nat
   (* ... a Stop that returns while a provider goroutine is still held violates the property *)
-  /\ verdict' (CHeld [0] [0] true true true false true [true] [true] [0]) = 1%nat
+  /\ verdict' (CHeld [0] [0] true true true true false true [true] [true] [0]) = 1%nat
+  (* Stop issued while Start is in progress (gRPC goroutine held before it listens): Stop waits, then all ends *)
+  /\ verdict' (CHeld [0; 2] [2] false true false true false true [true; true] [true; true] [0; 2]) = 0%nat
+  /\ verdict' (CHeld [0; 1; 2] [1; 2] false true false true false true [true; true; true] [true; true; true] [0; 1; 2]) = 0%nat
+  (* ... a Stop that returns at once and leaves the listeners up is rejected *)
+  /\ verdict' (CHeld [0; 2] [2] false true true true false false [false; false] [false; false] []) = 1%nat
   (* model mismatch only: an error reported although nothing was in flight *)
   /\ verdict (CLife [0] [0] 1 false false true [true] true false true [0] true [true] [true] [0]) = 2%nat.
 Proof. vm_compute. repeat split. Qed.
